@@ -20,11 +20,19 @@ let zi = z_of_int
 let iz = int_of_z
 
 (* ---------- printing ---------- *)
+(* pens: <letter><decimal> in the fixed order f b (colours, optionally #rrggbb) B u i r s a k z *)
+let pen_letters = [ ('f', FG); ('b', BG); ('B', BOLD); ('u', UNDER); ('i', ITALIC); ('r', REVERSE);
+                    ('s', STRIKE); ('a', ALTFONT); ('k', BLINK); ('z', SIZEPOS) ]
+
+let pr_value c = function
+  | VBool b -> Printf.sprintf "%c%d" c (if b then 1 else 0)
+  | VInt z -> Printf.sprintf "%c%d" c (iz z)
+  | VCol (i, None) -> Printf.sprintf "%c%d" c (iz i)
+  | VCol (i, Some g) -> Printf.sprintf "%c%d#%02x%02x%02x" c (iz i) (iz g.cr) (iz g.cg) (iz g.cb)
+
 let pr_pen p =
-  let b = Buffer.create 16 in
-  let f c = function Some v -> Buffer.add_string b (Printf.sprintf "%c%d" c (iz v)) | None -> () in
-  f 'f' p.p_fg; f 'b' p.p_bg; f 'B' p.p_b; f 'u' p.p_u;
-  if Buffer.length b = 0 then "-" else Buffer.contents b
+  let s = String.concat "" (List.map (fun (c, a) -> match pget p a with Some v -> pr_value c v | None -> "") pen_letters) in
+  if s = "" then "-" else s
 
 let pr_text cps =
   if cps = [] then "-" else String.concat "." (List.map (fun c -> Printf.sprintf "%x" (iz c)) cps)
@@ -69,6 +77,9 @@ let pr_dump s =
     (String.concat "/" (List.map (fun r -> String.concat "," (List.map pr_api r)) (api_of_rb s)))
 
 (* ---------- parsing ---------- *)
+let pen_with p a v =
+  pen_build (fun a' -> if a' = a then Some v else pget p a')
+
 let parse_pen str =
   if str = "-" then pen_empty else begin
     let n = String.length str in
@@ -78,11 +89,21 @@ let parse_pen str =
       let c = str.[!i] in
       let j = ref (!i + 1) in
       while !j < n && (str.[!j] = '-' || (str.[!j] >= '0' && str.[!j] <= '9')) do incr j done;
-      let v = Some (zi (int_of_string (String.sub str (!i + 1) (!j - !i - 1)))) in
-      (match c with
-       | 'f' -> p := { !p with p_fg = v } | 'b' -> p := { !p with p_bg = v }
-       | 'B' -> p := { !p with p_b = v } | 'u' -> p := { !p with p_u = v }
-       | _ -> failwith "pen");
+      let v = int_of_string (String.sub str (!i + 1) (!j - !i - 1)) in
+      let a = try List.assoc c pen_letters with Not_found -> failwith "pen" in
+      let value =
+        match attr_type a with
+        | TBool -> VBool (v <> 0)
+        | TInt -> VInt (zi v)
+        | TColour ->
+          if !j < n && str.[!j] = '#' then begin
+            let h k = zi (int_of_string ("0x" ^ String.sub str (!j + 1 + 2 * k) 2)) in
+            let g = { cr = h 0; cg = h 1; cb = h 2 } in
+            j := !j + 7;
+            VCol (zi v, Some g)
+          end else VCol (zi v, None)
+        | TNone -> failwith "pen" in
+      p := pen_with !p a value;
       i := !j
     done; !p end
 
@@ -258,7 +279,9 @@ let parse_dump lines cols tok =
   if n < 4 || tok.[0] <> 'D' || tok.[1] <> '{' || tok.[n - 1] <> '}' then failwith "dump";
   match split_on_string "}{" (String.sub tok 2 (n - 3)) with
   | [aux; raw; api] ->
-    ({ rb_lines = lines; rb_cols = cols; cells = parse_raw raw; aux = parse_aux aux }, parse_api api)
+    (* one line without columns prints like no line at all: the size is known from the case *)
+    let rows f s = if s = "" then List.init (max 0 (iz lines)) (fun _ -> []) else f s in
+    ({ rb_lines = lines; rb_cols = cols; cells = rows parse_raw raw; aux = parse_aux aux }, rows parse_api api)
   | _ -> failwith "dump"
 
 (* the check applied to a dump; C13 replaces it by the display-equality variant *)
